@@ -395,6 +395,26 @@ def rule_join(ctx):
                             "the joined value is not other_registers[i] for the same i", fact_strs(e)))
             agg(ctx, "join", k, stores[0].node if stores else k.node, "%s: operand of the join" % k.name,
                 "registers[i] is joined with other_registers[i]", res)
+            # every iteration joins its register, or leaves it alone only when the other register provably does not exceed it
+            loops_ = {}
+            for e in stores:
+                if e.loops:
+                    loops_[id(e.loops[-1])] = e.loops[-1]
+            res = []
+            for le in [x for x in w.events if x.kind == "loopend" and id(x.loop) in loops_]:
+                evs = [x for x in on_path(w.events, le) if x.loops and x.loops[-1] is le.loop]
+                if any(x in stores for x in evs):
+                    res.append((True, "register joined in this iteration", fact_strs(le)))
+                    continue
+                i = Lin.term(le.loop.varterm) if le.loop.varterm else None
+                own = [x for x in evs if x.kind == "read" and x.arr.name == reg and len(x.idx) == 1 and i is not None and x.idx[0].lin == i]
+                oth = [x for x in evs if x.kind == "read" and x.arr.name == oreg and len(x.idx) == 1 and i is not None and x.idx[0].lin == i]
+                okk = any(w.P.prove_le0(Lin.term(o.term) - Lin.term(m_.term), le.facts) for o in oth for m_ in own)
+                res.append((bool(okk), "skipped only when other_registers[i] <= registers[i]" if okk else
+                            "an iteration leaves registers[i] unmerged although other_registers[i] may exceed it", fact_strs(le)))
+            if loops_:
+                agg(ctx, "join", k, next(iter(loops_.values())).node, "%s: every register is merged" % k.name,
+                    "each iteration of the merge loop joins its register (or skips it only when nothing would change)", res)
 
 
 def rule_indep(ctx):
